@@ -4,6 +4,7 @@ import runtop_common
 
 PID = "C22"
 MODEL_TARGETS = ["model/RunTopCases.vo"]
+HARNESS_BINS = ["runtop"]
 RULE = ("histories of generated scripts over 3 peers; at every run the real execute_air is re-run under "
         "limit variants (size-1, size, size+1, 0, max for each of the three limits, both modes, and joint settings) "
         "and under input mutations that make an earlier stage fail; a case is one (input, limits) pair; "
